@@ -129,7 +129,10 @@ func negotiate(c *core.Ctx) {
 		}
 		return "", false
 	}
-	if !named {
+	if true {
+		// every exit is analysed by tracing the returned values back along its path (independent of
+		// whether the results are named variables, assigned directly or through copies)
+		_ = named
 		negotiateByReturns(c, p, info, fd, sent, accept, acceptElem, unimpl)
 		for call, problem := range tokenizers {
 			c.Check(problem == "", "accept-list/tokenizer", call.Pos(), "the client's list is split on commas and blanks alike%s", map[bool]string{true: "", false: " - " + problem}[problem == ""])
